@@ -120,7 +120,7 @@ def check_case(case):
         if e["kind"] == "stopping":
             f = GameFacts(e["game"])
             try:
-                if f.T > T_MAX:
+                if f.too_slow:
                     v.inconclusive = "T>300"
                     return v
             except OracleError as ex:
